@@ -129,7 +129,7 @@ def run(ctx):
         hair = Fr(1, 2**90)
         inside = [Fr(Af) + hair, Fr(Bf) - hair, Fr(1), (Fr(Af) + Fr(Bf)) / 2]
         outside = [Fr(Af) - hair, Fr(Bf) + hair, Fr(Af), Fr(Bf), 10**400, Fr(1, 10**400)]
-        n_ = ctx.rng.randint(1, 6)
+        n_ = ctx.rng.randint(1, 6) if ctx.rng.random() < 0.85 else 0      # (an empty sample: judged once by its own ratio when random_order is off)
         tabx = [ctx.rng.choice(inside if ctx.rng.random() < 0.7 else outside) for _ in range(n_ + 1)]
         x_ = [ctx.rng.randint(0, 1) for _ in range(n_)]; ro_ = ctx.rng.random() < 0.8
         r = sprt_call(S, (lambda xx, tabx=tabx: tabx[len(xx)]), al_, be_, x_, ro_)
@@ -143,13 +143,15 @@ def run(ctx):
     # ---- long samples: the closed form must still be the product of per-observation ratios, and sprt must not
     #      decide where every exact prefix ratio stays inside (A, B)
     for _ in range(ctx.n(25, 250)):
-        po, pa = ctx.rng.choice([(Fr(1, 2), Fr(5, 8)), (Fr(1, 2), Fr(3, 8)), (Fr(1, 2), Fr(9, 16)), (Fr(3, 8), Fr(1, 2))])
+        po, pa = ctx.rng.choice([(Fr(1, 2), Fr(5, 8)), (Fr(1, 2), Fr(3, 8)), (Fr(1, 2), Fr(9, 16)), (Fr(3, 8), Fr(1, 2)), (Fr(1, 100), Fr(99, 100)), (Fr(99, 100), Fr(1, 100)), (Fr(1, 50), Fr(24, 25))])
         n = ctx.rng.choice([200, 600, 990, ctx.rng.randint(995, 1015)])
         ones = max(0, min(n, int(n * float((po + pa) / 2)) + ctx.rng.randint(-8, 8)))
+        if po + pa == 1 and po != Fr(1, 2):      # far-apart hypotheses: balanced samples keep the ratio moderate while (pa/po)^ones alone is astronomically large
+            n = ctx.rng.choice([200, 260, 300, 310]); ones = n // 2 + ctx.rng.randint(-1, 1)
         x = [1] * ones + [0] * (n - ones); ctx.rng.shuffle(x)
         s = sum(x)
         num = pa ** s * (1 - pa) ** (n - s); den = po ** s * (1 - po) ** (n - s)
-        if min(num, den) < Fr(1, 10**305):      # would underflow in doubles: outside what doubles can represent
+        if min(num, den) < Fr(1, 10**313):      # would underflow in doubles: outside what doubles can represent (down to 1e-313 subnormals still carry 9 digits)
             continue
         ldt = ctx.rng.choice([np.int64, np.int8, np.uint8, np.int16, bool, np.float32, np.float16, np.int8]); ctx.count("long-sample-dtype-" + np.dtype(ldt).name)
         r = guarded(S.bernoulli_lh_ratio, np.array(x, dtype=ldt), float(po), float(pa))
